@@ -622,7 +622,13 @@ impl<'a> GeneratorState<'a> {
                     Ok(ExprType::Absolute(variable.clone(), *eight_bits, *offset))
                 } else {
                     // Implment optimization for inc on pointers
-                    if !superchip && (v.var_type == VariableType::Short || (v.var_type == VariableType::CharPtr && !eight_bits)) {
+                    let wide = v.var_type == VariableType::Short
+                        || (!eight_bits
+                            && matches!(
+                                v.var_type,
+                                VariableType::CharPtr | VariableType::ShortPtr | VariableType::CharPtrPtr
+                            ));
+                    if !superchip && wide {
 // Implement optimized 16 bits increment:
 //        inc     ptr
 //        bne     :+
@@ -665,7 +671,7 @@ impl<'a> GeneratorState<'a> {
                         let right = ExprType::Immediate(1);
                         let newright = self.generate_arithm(expr_type, &op, &right, pos, false)?;
                         let ret = self.generate_assign(expr_type, &newright, pos, false);
-                        if v.var_type == VariableType::Short || (v.var_type == VariableType::CharPtr && !eight_bits) {
+                        if wide {
                             let newright = self.generate_arithm(expr_type, &op, &right, pos, true)?;
                             self.generate_assign(expr_type, &newright, pos, true)?;
                         }
@@ -739,11 +745,17 @@ impl<'a> GeneratorState<'a> {
                     }
                 }
             },
-            ExprType::AbsoluteY(_) => {
+            ExprType::AbsoluteY(variable) => {
+                let v = self.compiler_state.get_variable(variable);
                 let op = if plusplus { Operation::Add(false) } else { Operation::Sub(false) };
                 let right = ExprType::Immediate(1);
                 let newright = self.generate_arithm(expr_type, &op, &right, pos, false)?;
-                self.generate_assign(expr_type, &newright, pos, false)
+                let ret = self.generate_assign(expr_type, &newright, pos, false);
+                if v.var_type == VariableType::CharPtrPtr || v.var_type == VariableType::ShortPtr {
+                    let newright = self.generate_arithm(expr_type, &op, &right, pos, true)?;
+                    self.generate_assign(expr_type, &newright, pos, true)?;
+                }
+                ret
             },
             _ => {
                 if plusplus {
